@@ -16,10 +16,15 @@
 From OIDC Require Import Lib.
 
 Inductive router := Prov | Leg.
-Inductive authm := AMBasic | AMPost | AMNone.
+Inductive authm := AMBasic | AMPost | AMNone | AMPkjwt.
 Record client := Client { c_id : string; c_secret : string; c_auth : authm; c_jwt : bool; c_exp : bool }.
   (* c_jwt: AccessTokenTypeJWT; c_exp: negative access-token lifetime (tokens are born expired) *)
-Inductive cred := NoCred | Basic (id sec : string) | Post (id sec : string).   (* Post id "" = client_id only *)
+(* How a request identifies its client.  Post id "" = client_id only.  Both: a Basic header
+   AND a (different) client_id in the form.  Assertion who fi: a private_key_jwt client
+   assertion - [who] is the oracle verdict of VerifyJWTAssertion (Some x: verifies as client x) -
+   plus client_id = fi in the form. *)
+Inductive cred := NoCred | Basic (id sec : string) | Post (id sec : string)
+               | Both (bid bsec fid : string) | Assertion (who : option string) (fid : string).
 Inductive ttype := TAccess | TRefresh | TId | TJwt | TUnknown | TAbsent.
 
 (* a storage identifier as a string: "at<n>", "rt<n>", the empty string, anything else *)
@@ -124,22 +129,31 @@ Definition find_client (cl : list client) (id : string) : option client :=
 Definition sec_ok (cl : list client) (id sec : string) : bool :=
   match find_client cl id with Some c => String.eqb (c_secret c) sec | None => false end.
 Definition cred_pair (c : cred) : string * string :=
-  match c with NoCred => ("", "") | Basic i s => (i, s) | Post i s => (i, s) end.
+  match c with NoCred => ("", "") | Basic i s => (i, s) | Post i s => (i, s) | Both i s _ => (i, s)
+             | Assertion _ f => (f, "") end.
 Definition basic_pair (c : cred) : string * string :=
-  match c with Basic i s => (i, s) | _ => ("", "") end.
+  match c with Basic i s => (i, s) | Both i s _ => (i, s) | _ => ("", "") end.
 Definition nonempty (s : string) : bool := negb (String.eqb s "").
 
 (* Provider router, introspection: ClientIDFromRequest - only a Basic header authenticates *)
 Definition auth_intro_prov (cl : list client) (c : cred) : option string :=
-  match c with Basic i s => if sec_ok cl i s then Some i else None | _ => None end.
+  match c with
+  | Basic i s | Both i s _ => if sec_ok cl i s then Some i else None
+  | Assertion who _ => who           (* ClientJWTAuth: the assertion's issuer *)
+  | _ => None
+  end.
 (* Legacy router, introspection: parseClientCredentials + authenticateResourceClient *)
 Definition auth_intro_leg (cl : list client) (c : cred) : option string :=
-  let (i, s) := cred_pair c in
-  if nonempty i && nonempty s && sec_ok cl i s then Some i else None.
+  match c with
+  | Assertion who _ => who
+  | _ => let (i, s) := cred_pair c in
+         if nonempty i && nonempty s && sec_ok cl i s then Some i else None
+  end.
 (* Provider router: ParseTokenRevocationRequest *)
 Definition auth_revoke_prov (cl : list client) (c : cred) : option string :=
   match c with
-  | Basic i s => if sec_ok cl i s then Some i else None
+  | Assertion who _ => who           (* VerifyJWTAssertion: profile.Issuer; the form client_id is not read *)
+  | Basic i s | Both i s _ => if sec_ok cl i s then Some i else None   (* the Basic client id, never the form's *)
   | Post i s =>
       if nonempty i then
         match find_client cl i with
@@ -153,16 +167,43 @@ Definition auth_revoke_prov (cl : list client) (c : cred) : option string :=
   end.
 (* Legacy router: webServer.withClient -> LegacyServer.VerifyClient *)
 Definition verify_client_leg (cl : list client) (c : cred) : option client :=
-  let (i, s) := cred_pair c in
+  match c with
+  | Assertion who _ =>               (* AuthorizePrivateJWTKey *)
+      match who with
+      | None => None
+      | Some x => match find_client cl x with
+                  | Some k => match c_auth k with AMPkjwt => Some k | _ => None end
+                  | None => None
+                  end
+      end
+  | _ =>
+  let (i, s) := cred_pair c in       (* Basic overrides the form's client_id *)
   if nonempty i then
     match find_client cl i with
     | None => None
     | Some k => match c_auth k with
                 | AMNone => Some k
+                | AMPkjwt => None
                 | _ => if sec_ok cl i s then Some k else None
                 end
     end
-  else None.
+  else None
+  end.
+(* token exchange on the Legacy router additionally refuses public clients (fix Fxx-C05-3) *)
+Definition auth_exch_leg (cl : list client) (c : cred) : option client :=
+  match verify_client_leg cl c with
+  | Some k => match c_auth k with AMNone => None | _ => Some k end
+  | None => None
+  end.
+(* error answers of failed client authentication *)
+Definition revoke_err_prov (c : cred) : out :=
+  match c with Assertion None _ => OErr S500 true | _ => OErr S401 true end.   (* verifier errors are not OAuth errors *)
+Definition client_err_leg (cl : list client) (c : cred) : out :=
+  match c with
+  | Assertion None _ => OErr S500 true
+  | Assertion (Some x) _ => match find_client cl x with None => OErr S500 true | Some _ => OErr S400 true end
+  | _ => OErr S400 true
+  end.
 (* Provider router: AuthorizeTokenExchangeClient - id and secret only from the Basic header *)
 Definition auth_exch_prov (cl : list client) (c : cred) : option client :=
   let (i, s) := basic_pair c in
@@ -268,7 +309,7 @@ Definition revoke (cl : list client) (r : router) (g : store) (c : cred) (t : to
          | Prov => auth_revoke_prov cl c
          | Leg => match verify_client_leg cl c with Some k => Some (c_id k) | None => None end
          end) with
-  | None => (g, match r with Prov => OErr S401 true | Leg => OErr S400 true end)
+  | None => (g, match r with Prov => revoke_err_prov c | Leg => client_err_leg cl c end)
   | Some caller =>
       match revoke_token g (revoke_target g t h) caller with
       | None => (g, OErr S401 true)
@@ -303,8 +344,8 @@ Definition exchange (cl : list client) (r : router) (s : st) (c : cred) (subj : 
   let storage_err := (s, match r with Prov => OErr S400 true | Leg => OErr S500 true end) in
   let absent_first := match r, styp with Prov, TAbsent => true | _, _ => false end in
   if absent_first then e400 else
-  match (match r with Prov => auth_exch_prov cl c | Leg => verify_client_leg cl c end) with
-  | None => (s, match r with Prov => OErr S401 true | Leg => OErr S400 true end)
+  match (match r with Prov => auth_exch_prov cl c | Leg => auth_exch_leg cl c end) with
+  | None => (s, match r with Prov => OErr S401 true | Leg => client_err_leg cl c end)
   | Some k =>
       match req with TUnknown => e400 | _ =>
       match read_x g styp subj with
@@ -333,7 +374,7 @@ Definition exchange (cl : list client) (r : router) (s : st) (c : cred) (subj : 
                 | TRefresh =>
                     ((add_at_rt (nx + 1) (nx + 2) t g, nx + 2), OExch TRefresh (acc (nx + 2)) (RT (nx + 1)) true sc (Some t))
                 | TId =>
-                    (s, OExch TId (XIdTok (if string_in "openid" sc then ssub else "") (c_id k)) NoId false sc None)
+                    (s, OExch TId (XIdTok ssub (c_id k)) NoId false sc None)   (* CreateIDToken keeps the request subject *)
                 | _ => e400          (* F07 fixed: requested jwt is an error *)
                 end
           end
